@@ -150,6 +150,7 @@ func originProbes(c *cors.Config, r R) []string {
 		"https://EXAMPLE.com", "https://example.com/", "https://user@example.com", "https://[x.example.com]",
 		"https://example.com:08443", "https://example.com:123456", "https://exa\x00mple.com", "https://ex\xc3\xa9.com", "", "*",
 		"https://a.example.com.evil.com", "https://xample.com", "https://example.com.",
+		"https://192.168.1.10:8443", "https://[2001:db8::1]:8443", "https://127.0.0.1:8443", "https://[::1]",
 		"http://[]:9", "https://[]:65535", "https://[]", "https://[", "https://]", "https://[]]:1", "https://[::1", "https://:443", "https://.", "a://[]:1"}
 	if c != nil {
 		for _, p := range c.Origins {
